@@ -865,6 +865,13 @@ func Main() {
 	r.Assume("messages are in the domain the consensus state writes (they pass ValidateBasic); end-height markers increase strictly; a corruption that leaves a well-formed record with a matching CRC-32C is out of scope (counted as out_of_scope_crc_preserving)")
 	r.Assume(fmt.Sprintf("message size limit transcribed from consensus/wal.go: %d bytes; one Decode may allocate the limit + 2 x largest record of the log + %d slack", maxMsgSizeBytes, allocSlack))
 	// the cases are single-threaded; few Ps keep the stop-the-world of the exact allocation meter short on a busy machine
+	// one scratch root per run, removed by the parent even when a child process died inside a case
+	if !r.IsChild() {
+		if base, err := scratchDir("verif-c15-run-"); err == nil {
+			os.Setenv("VERIF_C15_SCRATCH", base)
+			defer os.RemoveAll(base)
+		}
+	}
 	opts := func(p int) core.Opts {
 		return core.Opts{Procs: p, HangIsViolation: true, StallSec: 900, MemMB: 8192, Env: []string{"GOMAXPROCS=2"}}
 	}
@@ -897,6 +904,9 @@ func Main() {
 		r.Floor("faults:lenfield", 20)
 		r.Floor("faults:overwrite", 20)
 		r.Floor("corpus_size_limit_checks", 3)
+	}
+	if base := os.Getenv("VERIF_C15_SCRATCH"); base != "" && !r.IsChild() {
+		os.RemoveAll(base) // Finish exits the process
 	}
 	r.Finish()
 }
